@@ -31,6 +31,7 @@ import (
 
 	"github.com/markusmobius/go-domdistiller/internal/logutil"
 	"github.com/markusmobius/go-domdistiller/internal/pagination/info"
+	"github.com/markusmobius/go-domdistiller/vtrace"
 )
 
 // DetectParamInfo creates a PageParamInfo based on outlinks and numeric text around them.
@@ -47,6 +48,9 @@ func DetectParamInfo(adjacentNumberGroups *info.MonotonicPageInfoGroups, docURL 
 	// Start detection
 	detectionState := &DetectionState{}
 	for _, group := range adjacentNumberGroups.Groups {
+		if vtrace.On {
+			verifGroup(group)
+		}
 		if len(group.List) < 2 {
 			continue
 		}
@@ -64,6 +68,9 @@ func DetectParamInfo(adjacentNumberGroups *info.MonotonicPageInfoGroups, docURL 
 	}
 
 	if detectionState.isEmpty() {
+		if vtrace.On {
+			verifBest(nil, false)
+		}
 		return &info.PageParamInfo{}
 	}
 
@@ -75,5 +82,8 @@ func DetectParamInfo(adjacentNumberGroups *info.MonotonicPageInfoGroups, docURL 
 
 	bestPageParamInfo := detectionState.bestPageParamInfo
 	bestPageParamInfo.DetermineNextPagingURL(docURL)
+	if vtrace.On {
+		verifBest(bestPageParamInfo, detectionState.hasMultiPagePatterns)
+	}
 	return bestPageParamInfo
 }
